@@ -9,6 +9,7 @@ from ..deck import Deck, fmt
 from ..runner import Scn, verdict, sha, Vacuous
 
 ID = 'C03'
+DECORATE = True
 LEVEL = 'model_checking'
 RULE = ('E1 enumeration of macrobody cards (kind x parameter/orientation/handedness alphabet); probe '
         'cells -b, +b and +b.k / -b.k for every facet k; reference solid from its metric definition, '
